@@ -338,3 +338,14 @@ impl<V: KEq> KEq for GE<V> {
         }
     }
 }
+
+/// repr(C) zero-copy enum whose fields are all narrower than its (C int) tag:
+/// native alignment 4, every field unit <= 2.
+#[derive(Epserde, Debug, Clone, Copy, PartialEq, Eq)]
+#[repr(C)]
+#[zero_copy]
+pub enum ZE {
+    A,
+    B(u8),
+    C { x: u16, y: bool },
+}
